@@ -248,10 +248,108 @@ func runC16(p *eng.Prog, r *eng.Report, tier string) {
 			c.r.Check("C16.3", ut, "tested escape sequence position", "E-aff: the two characters tested are src[nSrc+idx+1 : nSrc+idx+3]", cl.Pos(), okS, "")
 		}
 	}
+	// ---- C16.5 the rest of a chunk is declared clean only when it is ------------------------
+	// Consuming "everything up to the end of src" as literal text is justified
+	// only if no backslash is left in it, or no more input can follow (atEOF),
+	// or the bytes after the last backslash were tested not to be a backslash.
+	// (!ishex(next) alone is not enough: next may itself be a backslash whose
+	// escape sequence continues in the following chunk.)
+	justified := func(f *eng.Fn, site eng.Point, eof string, src string) (bool, string) {
+		okDisj := func(d string) bool {
+			d = strings.TrimSpace(d)
+			if d == eof || eng.Glob("eq(bytes.Index*,-1)", d) || eng.Glob("!eq("+src+"[*],92)", d) || eng.Glob("!eq("+src+"[*],'\\\\')", d) {
+				return true
+			}
+			if strings.HasPrefix(d, "and(") {
+				for _, k := range splitTop(d[4:len(d)-1], " & ") {
+					if strings.TrimSpace(k) == eof {
+						return true
+					}
+				}
+			}
+			return false
+		}
+		var seen []string
+		for _, fact := range f.Graph().FactsAt(site) {
+			ds := []string{fact}
+			if strings.HasPrefix(fact, "or(") {
+				ds = splitTop(fact[3:len(fact)-1], " | ")
+			}
+			all := true
+			for _, d := range ds {
+				if !okDisj(d) {
+					all = false
+				}
+			}
+			if all {
+				return true, ""
+			}
+			seen = append(seen, fact)
+		}
+		return false, "dominating facts: " + strings.Join(seen, " ; ")
+	}
+	if ut != nil {
+		g := ut.Graph()
+		n := 0
+		for _, cl := range ut.Calls("builtin.copy") {
+			if len(cl.Args) != 2 {
+				continue
+			}
+			pt, _ := g.Where(cl)
+			a := strings.Replace(ut.Norm(cl.Args[1], &pt), "local:nSrc<int>", "r1", 1)
+			if a != "p1[r1:]" && a != "p1[r1:builtin.len(p1)]" {
+				continue
+			}
+			n++
+			okj, why := justified(ut, pt, "p2", "p1")
+			c.r.Check("C16.5", ut, "copy of the whole rest of src", "G: the rest of the chunk is copied verbatim only if it holds no backslash, the input ends here, or the byte after the last backslash is not a backslash", cl.Pos(), okj, why)
+		}
+		c.r.Floor("C16.5", "whole-rest copies in unescapeMapping.Transform", n, 1)
+	}
+	if us != nil {
+		g := us.Graph()
+		n := 0
+		for _, rs := range g.Returns {
+			if len(rs.Results) != 2 || us.Norm(rs.Results[0], nil) != "builtin.len(p0)" {
+				continue
+			}
+			n++
+			pt, _ := g.Where(rs)
+			okj, why := justified(us, pt, "p1", "p0")
+			c.r.Check("C16.5", us, "span covers the whole rest of src", "G: Span reports the whole chunk as unchanged only if it holds no backslash, the input ends here, or the byte after the last backslash is not a backslash", rs.Pos(), okj, why)
+		}
+		c.r.Floor("C16.5", "whole-chunk returns in unescapeMapping.Span", n, 1)
+	}
 	// ---- C16.4 same tables --------------------------------------------------------------------
 	for _, f := range []*eng.Fn{us, ut} {
 		if f == nil {
 			continue
+		}
+		if f == us {
+			// scan step agreement: Transform resumes at the byte AFTER a
+			// backslash that starts no escape; Span must not skip further
+			nw := 0
+			for _, w := range f.Writes() {
+				if f.Norm(w.LHS, nil) != "r0" {
+					continue
+				}
+				nw++
+				okw := w.Tok.String() == "++"
+				inc := w.Tok.String()
+				if w.RHS != nil {
+					inc = w.Tok.String() + " " + f.Norm(w.RHS, nil)
+					if w.Tok.String() == "+=" && f.ConstVal(w.RHS) == nil {
+						// a jump to the next candidate found by an Index* search
+						pt, _ := f.Graph().Where(w.Stmt)
+						okw = strings.HasPrefix(f.Norm(w.RHS, &pt), "bytes.Index")
+					}
+					if cv := f.ConstVal(w.RHS); cv != nil && w.Tok.String() == "+=" && cv.ExactString() == "1" {
+						okw = true
+					}
+				}
+				c.r.Check("C16.4", f, "scan step "+inc, "Span examines every byte Transform examines: the scan index moves by one (or to the next match of an Index* search), so a backslash right after a non-escape backslash is still seen", w.Stmt.Pos(), okw, "the scan index is advanced by "+inc)
+			}
+			c.r.Floor("C16.4", "scan steps of unescapeMapping.Span", nw, 1)
 		}
 		c.r.Check("C16.4", f, "uses shouldUnescape", "Span and Transform decide with the same table", f.Pos(), len(f.Calls("jid.shouldUnescape")) >= 1, "no call of shouldUnescape")
 		c.r.Check("C16.4", f, "uses ishex", "Span and Transform treat an incomplete sequence the same way", f.Pos(), len(f.Calls("jid.ishex")) >= 1, "no call of ishex")
@@ -320,4 +418,24 @@ func c16Advance(c *cx, f *eng.Fn, res string, allowed map[string]bool) {
 		}
 		c.r.Check("C16.3", f, "advance of nSrc by "+inc, "nSrc advances by the copied count or by one escaped character", w.Stmt.Pos(), allowed[inc], "unexpected advance "+inc)
 	}
+}
+
+// splitTop splits s at sep occurrences that are not nested in brackets.
+func splitTop(s, sep string) []string {
+	var out []string
+	depth, last := 0, 0
+	for i := 0; i < len(s); i++ {
+		switch s[i] {
+		case '(', '[', '{':
+			depth++
+		case ')', ']', '}':
+			depth--
+		}
+		if depth == 0 && strings.HasPrefix(s[i:], sep) {
+			out = append(out, s[last:i])
+			last = i + len(sep)
+			i += len(sep) - 1
+		}
+	}
+	return append(out, s[last:])
 }
